@@ -4,7 +4,10 @@ import (
 	"bytes"
 	"encoding/base64"
 	"encoding/json"
+	"errors"
 	"fmt"
+	cose "github.com/veraison/go-cose"
+	"io"
 	"sort"
 	"strings"
 	"time"
@@ -580,6 +583,66 @@ func init() {
 			}, nil
 		}
 	}
+	// C10: the payload ValidateAndSign puts into the token is the wire format of the claims AS THEY ARE when it is called:
+	// not of what they were when they were attached, when a signing attempt failed, or when an earlier token was made
+	for kind := 0; kind < 2; kind++ {
+		kind := kind
+		Scenarios[fmt.Sprintf("c10.signed-payload-after-change.%s", kindNames[kind])] = func() (choice.Scenario, func() any) {
+			good := fixtures.Get("ES256", 1)
+			return func(c *choice.Ctx) {
+				a := genValidOpt(c, kind, false, true)
+				x, err := buildBySetters(a)
+				if err != nil {
+					return
+				}
+				ev := &psatoken.Evidence{}
+				if ev.SetClaims(x) != nil {
+					return
+				}
+				before := c.Choose("before-the-change", 4)
+				switch before {
+				case 1:
+					_, _ = ev.Sign(fakeSigner{cose.AlgorithmES256, func(io.Reader, []byte) ([]byte, error) { return nil, errors.New("hsm unavailable") }})
+				case 2:
+					_, _ = ev.ValidateAndSign(good.Signer())
+				case 3:
+					_, _ = ev.ValidateAndSign(fakeSigner{cose.AlgorithmES256, func(io.Reader, []byte) ([]byte, error) { return nil, errors.New("hsm unavailable") }})
+				}
+				what := c.Choose("change", 3)
+				switch what {
+				case 0:
+					if x.SetNonce(pat(64, 0xe2)) != nil || x.SetClientID(-6) != nil {
+						return
+					}
+					a.Nonces, a.ClientID = [][]byte{pat(64, 0xe2)}, i32p(-6)
+				case 1:
+					if x.SetVSI("changed-after-attach") != nil {
+						return
+					}
+					a.VSI = sp("changed-after-attach")
+				case 2:
+					if x.SetSoftwareComponents([]psatoken.ISwComponent{realComp(fullComp(0xe3, 48))}) != nil {
+						return
+					}
+					a.Comps, a.CompsNil, a.NoMeas = []*refmodel.Comp{fullComp(0xe3, 48)}, false, nil
+				}
+				tag := fmt.Sprintf("%s:signed-payload-after-change:before=%d:change=%d", kindNames[kind], before, what)
+				encStats.StateStr(tag + a.String())
+				tok, err := ev.ValidateAndSign(good.Signer())
+				encStats.Trans.Add(2)
+				if err != nil {
+					c.Failf("C10:sign-error:"+tag, "%v", err)
+					return
+				}
+				v, perr := viewSign1(tok)
+				if perr != nil {
+					c.Failf("C10:token-not-cbor:"+tag, "%v", perr)
+					return
+				}
+				c10Strict(c, encStats, a, v.payload, tag, nil)
+			}, nil
+		}
+	}
 	// C09(b): every decodable token of C04's enumeration, valid or not
 	for _, p := range []int{1, 2} {
 		for v := 0; v < 2; v++ {
@@ -874,6 +937,7 @@ func init() {
 			if prop == "C10" {
 				for kind := 0; kind < 2; kind++ {
 					exploreChoice(r, fmt.Sprintf("c10.decode-change-encode.%s", kindNames[kind]), b, dl)
+					exploreChoice(r, fmt.Sprintf("c10.signed-payload-after-change.%s", kindNames[kind]), 2, dl)
 				}
 			}
 			if prop == "C09" {
